@@ -747,8 +747,8 @@ theorem NonRevProof.setExpected_structureOk {o : SigOracle} {kid : String} {pk :
     {p p' : NonRevProof} {c r : Int} (h : p.setExpected o kid pk c r = some p') :
     p'.structureOk = true := (NonRevProof.setExpected_ok h).1
 
-theorem unitModN_iff (c n : Int) : unitModN c n = true ↔ 0 < c ∧ c < n ∧ Int.gcd c n = 1 := by
-  simp [unitModN, and_assoc]
+theorem unitModN_iff (c n : Int) : unitModN c n = true ↔ 0 < c ∧ Int.gcd c n = 1 := by
+  simp [unitModN]
 
 theorem unitMod_iff (c n : Int) : unitMod c n = true ↔ 0 < c ∧ c < n ∧ Int.gcd c n = 1 := by
   simp [unitMod, and_assoc]
@@ -756,7 +756,7 @@ theorem unitMod_iff (c n : Int) : unitMod c n = true ↔ 0 < c ∧ c < n ∧ Int
 theorem NonRevProof.basesAreUnits_units {pk : PublicKey} {p : NonRevProof}
     (h : p.basesAreUnits pk = true) :
     ∃ cr cu, p.cr = some cr ∧ p.cu = some cu ∧
-      (0 < cr ∧ cr < pk.n ∧ Int.gcd cr pk.n = 1) ∧ (0 < cu ∧ cu < pk.n ∧ Int.gcd cu pk.n = 1) := by
+      (0 < cr ∧ Int.gcd cr pk.n = 1) ∧ (0 < cu ∧ Int.gcd cu pk.n = 1) := by
   unfold NonRevProof.basesAreUnits at h
   rw [Bool.and_eq_true] at h
   obtain ⟨h, _⟩ := h
@@ -1715,12 +1715,13 @@ theorem RangeStructure.verifyProofStructure_units {s : RangeStructure} {pk : Pub
     rw [List.getElem?_eq_getElem hi, hget] at hv'
     exact ⟨v', Option.some.inj hv', hv0⟩
 
-/-- the non-revocation part of an accepted proof: `C_r`, `C_u` are units modulo `n`. -/
+/-- the non-revocation part of an accepted proof: `C_r`, `C_u` are positive and coprime to `n`
+    (not necessarily reduced: the model's `unitModN` has no upper bound). -/
 theorem ProofD.accept_nonrev_units {o : SigOracle} {kid : String} {pk : PublicKey} {p : ProofD}
     {ctx nonce : Int} {issig : Bool} {i1 i2 : Int} {nr : NonRevProof}
     (h : p.verifyWith o kid pk ctx nonce issig i1 i2 = .ok true) (hnr : p.nonrev = some nr) :
     ∃ cr cu, nr.cr = some cr ∧ nr.cu = some cu ∧
-      (0 < cr ∧ cr < pk.n ∧ Int.gcd cr pk.n = 1) ∧ (0 < cu ∧ cu < pk.n ∧ Int.gcd cu pk.n = 1) := by
+      (0 < cr ∧ Int.gcd cr pk.n = 1) ∧ (0 < cu ∧ Int.gcd cu pk.n = 1) := by
   obtain ⟨contrib, p', hc, _⟩ := ProofD.verifyWith_ok_true h
   obtain ⟨_, z, a, c, _, _, _, l1, p1, hstep, _⟩ := ProofD.challengeContribution_ok_some hc
   rcases hstep with ⟨hnone, _, _⟩ | ⟨nr0, resp, nr', hnr0, _, _, hse, _, _⟩
